@@ -150,3 +150,8 @@ package js_parser
 //@   loop 2 invariant forall k int :: 0 <= k && k <= rangeindex && s.Cases[k].ValueOrNil.Data != nil ==> knownUnequal(s.Test, s.Cases[k])
 //@   loop 2 exit skipped-cases-are-known-unequal: takenIndex != -1 || defaultIndex != -1 ==>
 //@       (forall k int :: 0 <= k && k < (takenIndex == -1 ? len(s.Cases) : takenIndex) && s.Cases[k].ValueOrNil.Data != nil ==> knownUnequal(s.Test, s.Cases[k]))
+
+// C03: a function is marked IsEmptyFunction (calls to it are then deleted) only after looking at everything a call
+// evaluates: the body is empty AND every parameter is a plain identifier WITHOUT a default-value initialiser
+// (ECMA-262 10.2.11 FunctionDeclarationInstantiation evaluates initialisers on every call that omits the argument).
+//@ decides empty-function-looks-at-defaults C03: func=(*parser).visitAndAppendStmt ; in=js_parser ; site=store Symbol.Flags ; when=*|256* ; scenario=empty_function_default_arg ; must=Arg.Binding,Arg.DefaultOrNil
